@@ -444,7 +444,21 @@ func init() {
 	reg("sort.Slice", []string{"E.*"}, sortFn(false))
 	reg("sort.SliceStable", []string{"E.*"}, sortFn(true))
 	reg("sort.Strings", []string{"E.string"}, func(f *frame, in ssa.Instruction, callee *ssa.Function, args []Val, pc string, h *Heap, nm string, resT types.Type) bool {
-		f.e.havocHeapComp(h, "E.string")
+		e := f.e
+		sv, ok := args[0].(SliceV)
+		if !ok {
+			e.havocHeapComp(h, "E.string")
+			return true
+		}
+		arr := e.comp(h, "E.string", "Str", true)
+		na := e.fresh("Hsorted.E.string", "(Array Int Str)")
+		oldRow := fmt.Sprintf("(select %s %s)", arr, sv.B)
+		e.useQuant = true
+		e.useStrLe = true
+		// ascending in the total order strle, a permutation of what was there (permutation part: lengths only), rest unchanged
+		e.assume(fmt.Sprintf("(forall ((j Int)) (! (=> (and (<= %s j) (< (+ j 1) (+ %s %s))) (strle (select %s j) (select %s (+ j 1)))) :pattern ((select %s j))))", sv.O, sv.O, sv.L, na, na, na))
+		e.assume(fmt.Sprintf("(forall ((j Int)) (! (=> (or (< j %s) (>= j (+ %s %s))) (= (select %s j) (select %s j))) :pattern ((select %s j))))", sv.O, sv.O, sv.L, na, oldRow, na))
+		e.setComp(h, "E.string", fmt.Sprintf("(store %s %s %s)", arr, sv.B, na))
 		return true
 	})
 	reg("slices.Reverse", []string{"E.*"}, func(f *frame, in ssa.Instruction, callee *ssa.Function, args []Val, pc string, h *Heap, nm string, resT types.Type) bool {
